@@ -769,9 +769,134 @@ def s_p16(ctx, T, tx, fee, F, A, label):
     ctx.require(True, "[%s] second pass evaluates min_utxo(change)" % label)
 
 
+def s_p17(ctx, T, tx, fee, F, A, label):
+    """a withdrawal `from` a party and a treasury donation: the body withdraws `amt` from the reward
+    account of the party's address (header byte + stake credential, 29 bytes) - a party whose address
+    has no stake credential cannot be withdrawn from - and donates `tip`"""
+    eng = ctx.eng
+    amt, tip = sym(ctx, "amt"), sym(ctx, "tip")
+    lov = sym(ctx, "src.lovelace")
+    eng.assume(z3.And(lov - F >= 0, tip >= 1))
+    kind = eng.choose(3, "address of the party: base (key stake credential) / base (script stake credential) / enterprise")
+    pay, stake = [0xA1] * 28, [0xD4] * 28
+    addr = {0: [0x00] + pay + stake, 1: [0x20] + pay + stake, 2: [0x60] + pay}[kind]
+    args = amap([("amt", intarg(T, amt)), ("tip", intarg(T, tip)), ("alice", T.v("ArgValue", "Address", VecM(addr)))])
+    u = T.st("Utxo", ref=utxo_ref(T, [1] * 32, 0), address=VecM(addr), assets=Agg("CanonicalAssets", None, 0, [MapM("HashMap", [[cls_naked(), True, lov]])]), datum=none(), script=none())
+    r, why = pipeline(ctx, tx, args, amap([("src", MapM("HashSet", [[u, True, unit()]]))]), fee)
+    if r is None:
+        ctx.require(kind == 2, "[%s] a withdrawal from a party with a stake credential compiles: %s" % (label, why[:160]), shape="pipeline fails on a well-typed program")
+        return
+    body, _ = r
+    bn = eng.tdef("TransactionBody", "struct")[1][2]
+    g = lambda f: models.deref(body.fields[bn.index(f)])
+    w = g("withdrawals")
+    ctx.require(w.variant == "Some", "[%s] the withdrawal is emitted" % label, shape="withdrawal dropped")
+    if w.variant == "Some":
+        ents = [(models.deref(k), v) for k, p, v in models.deref(w.fields[0]).entries if p is not False]
+        ctx.require(len(ents) == 1, "[%s] one withdrawal" % label, shape="withdrawal dropped")
+        for k, v in ents:
+            while isinstance(k, Agg):
+                k = models.deref(k.fields[0])
+            got = list(k.items) if isinstance(k, (VecM, SliceV)) else None
+            want = None if kind == 2 else [(0xE0 if kind == 0 else 0xF0)] + stake
+            ctx.require(kind != 2, "[%s] a party without a stake credential cannot be withdrawn from (emitted reward account: %s)" % (label, got), shape="withdrawal from an address without stake credential accepted")
+            if kind != 2:
+                ctx.require(got == want, "[%s] the withdrawal names the reward account of the party's address: header byte + stake credential (got %d bytes: %s)" % (label, len(got or []), got),
+                            shape="withdrawal key is not the reward account of the party")
+            ctx.require(z3.ZeroExt(64, eng.to_bv(v, 64)) == amt, "[%s] the withdrawn amount is the argument" % label, shape="withdrawal amount differs")
+    d = g("donation")
+    ctx.require(d.variant == "Some", "[%s] the donation is emitted" % label, shape="donation dropped")
+    if d.variant == "Some":
+        x = models.deref(d.fields[0])
+        x = x.fields[0] if isinstance(x, Agg) else x
+        ctx.require(z3.ZeroExt(64, eng.to_bv(x, 64)) == tip, "[%s] the donation is the argument" % label, shape="donation differs")
+    check_outputs(ctx, body, [dict(address=addr, coin=lov - F)], label)
+
+
+def s_p18(ctx, T, tx, fee, F, A, label):
+    """cardano::publish (output with datum and reference script), a vote-delegation certificate
+    (stake credential of a party, DRep key hash from an argument) next to an ordinary output"""
+    eng = ctx.eng
+    q = sym(ctx, "q")
+    lov = sym(ctx, "src.lovelace")
+    eng.assume(z3.And(lov - F - q >= 0, q >= 1))
+    pay, stake = [0xA1] * 28, [0xD4] * 28
+    alice = [0x00] + pay + stake
+    drep = [0x77] * 28
+    args = amap([("q", intarg(T, q)), ("drep", T.v("ArgValue", "Bytes", VecM(drep))), ("alice", T.v("ArgValue", "Address", VecM(alice))), ("bob", A("bob"))])
+    u = T.st("Utxo", ref=utxo_ref(T, [1] * 32, 0), address=VecM(alice), assets=Agg("CanonicalAssets", None, 0, [MapM("HashMap", [[cls_naked(), True, lov]])]), datum=none(), script=none())
+    body, _ = finish(ctx, tx, args, amap([("src", MapM("HashSet", [[u, True, unit()]]))]), fee, label)
+    if body is None:
+        return
+    # ordinary outputs first, published outputs after them
+    bn = check_outputs(ctx, body, [dict(address=alice, coin=lov - F - q), dict(address=ADDR["bob"], coin=q, datum=("constr", 0, [("int", q)]))], label)
+    outs = models.deref(body.fields[bn.index("outputs")]).items
+    if len(outs) == 2:
+        o = models.deref(outs[1])
+        while isinstance(o, Agg) and o.ty != "GenPostAlonzoTransactionOutput":
+            o = models.deref(o.fields[0])
+        names = eng.tdef("GenPostAlonzoTransactionOutput", "struct")[1][2]
+        sr = models.deref(o.fields[names.index("script_ref")])
+        ctx.require(sr.variant == "Some", "[%s] the published output carries its reference script" % label, shape="reference script dropped")
+        if sr.variant == "Some":
+            x = models.deref(sr.fields[0])
+            while isinstance(x, Agg) and x.ty != "ScriptRef" and x.fields:
+                x = models.deref(x.fields[0])
+            ctx.require(isinstance(x, Agg) and x.variant == "PlutusV3Script", "[%s] the reference script has the declared version (got %s)" % (label, getattr(x, "variant", x)), shape="reference script version differs")
+            if isinstance(x, Agg) and x.variant == "PlutusV3Script":
+                inner = models.deref(x.fields[0])
+                while isinstance(inner, Agg):
+                    inner = models.deref(inner.fields[0])
+                ctx.require(list(inner.items) == [0x51, 0x01, 0x01, 0x00, 0x23, 0x25, 0x98, 0x00, 0xa5, 0x18, 0xa4, 0xd1, 0x36, 0x56, 0x40, 0x04, 0xae, 0x69], "[%s] the reference script bytes are the ones written" % label, shape="reference script bytes differ")
+    certs = models.deref(body.fields[bn.index("certificates")])
+    ctx.require(certs.variant == "Some", "[%s] the certificate is emitted" % label, shape="certificate dropped")
+    if certs.variant == "Some":
+        inner = models.deref(certs.fields[0])
+        while isinstance(inner, Agg):
+            inner = models.deref(inner.fields[0])
+        ctx.require(len(inner.items) == 1, "[%s] one certificate" % label, shape="certificate dropped")
+        c = models.deref(inner.items[0])
+        ctx.require(c.variant == "VoteDeleg", "[%s] a vote delegation certificate (got %s)" % (label, c.variant), shape="certificate kind differs")
+        if c.variant == "VoteDeleg":
+            cred, dr = models.deref(c.fields[0]), models.deref(c.fields[1])
+            ctx.require(cred.variant == "AddrKeyhash" and list(models.deref(models.deref(cred.fields[0]).fields[0]).items) == stake, "[%s] the stake credential is the one of the party's address" % label, shape="stake credential differs")
+            ctx.require(dr.variant == "Key" and list(models.deref(models.deref(dr.fields[0]).fields[0]).items) == drep, "[%s] the DRep is the key hash given as argument" % label, shape="drep differs")
+
+
+def s_p19(ctx, T, tx, fee, F, A, label):
+    """an `asset` definition used as constructor, type aliases (of a scalar and of a record), locals
+    referring to locals, a many-input, a burn of a defined asset"""
+    eng = ctx.eng
+    n = sym(ctx, "n")
+    lov, gold = sym(ctx, "funds.lovelace"), sym(ctx, "funds.gold")
+    eng.assume(z3.And(lov - F >= 0, n - 1 >= 1, gold - n >= 1))
+    who = [0xAB, 0xCD]
+    args = amap([("n", intarg(T, n)), ("who", T.v("ArgValue", "Bytes", VecM(who))), ("alice", A("alice")), ("bob", A("bob"))])
+    body, _ = finish(ctx, tx, args, amap([("funds", utxo(T, 1, lov, [(b"GOLD", gold)]))]), fee, label)
+    if body is None:
+        return
+    K = (tuple(POL), tuple(b"GOLD"))
+    bn = check_outputs(ctx, body, [dict(address=ADDR["bob"], coin=z3.BitVecVal(0, 128), assets={K: n - 1}, datum=("constr", 0, [("int", n + n + 1), ("bytes", who)])),
+                                   dict(address=ADDR["alice"], coin=lov - F, assets={K: gold - n})], label)
+    mint = models.deref(body.fields[bn.index("mint")])
+    ctx.require(mint.variant == "Some", "[%s] the burn is emitted" % label, shape="mint dropped")
+    if mint.variant == "Some":
+        got = {}
+        for pk, pp, pv in models.deref(mint.fields[0]).entries:
+            for ak, ap, av in models.deref(pv).entries:
+                nm = models.deref(ak)
+                while isinstance(nm, Agg):
+                    nm = models.deref(nm.fields[0])
+                qv = models.deref(av)
+                got[tuple(nm.items)] = qv.fields[0] if isinstance(qv, Agg) else qv
+        ctx.require(set(got) == {tuple(b"GOLD")}, "[%s] exactly the burned asset appears in the mint field" % label, shape="mint assets differ")
+        if tuple(b"GOLD") in got:
+            ctx.require(z3.SignExt(64, eng.to_bv(got[tuple(b"GOLD")], 64)) == -1, "[%s] one unit is burned" % label, shape="burn quantity differs")
+
+
 SPECS = {"p01_int_arith": s_p01, "p02_asset_arith": s_p02, "p03_datum_spread": s_p03, "p04_mint_meta": s_p04,
          "p05_lists_concat": s_p05, "p06_locals_env": s_p06, "p07_time": s_p07, "p08_two_inputs": s_p08,
-         "p09_record_order": s_p09, "p10_negate_parens": s_p10, "p11_policy_contexts": s_p11, "p12_nested_access": s_p12, "p13_concat_mint_net": s_p13, "p14_time_back_meta": s_p14, "p15_datum_fields_elsewhere": s_p15, "p16_min_utxo_optional": s_p16}
+         "p09_record_order": s_p09, "p10_negate_parens": s_p10, "p11_policy_contexts": s_p11, "p12_nested_access": s_p12, "p13_concat_mint_net": s_p13, "p14_time_back_meta": s_p14, "p15_datum_fields_elsewhere": s_p15, "p16_min_utxo_optional": s_p16, "p17_withdrawal_donation": s_p17, "p18_publish_cert": s_p18, "p19_asset_alias_many": s_p19}
 
 
 def _h(name, fn, bounds, tier="quick", **kw):
